@@ -11,6 +11,7 @@ package c18
 
 import (
 	"fmt"
+	"os"
 	"sort"
 	"strings"
 	"testing"
@@ -45,11 +46,11 @@ type model struct {
 func (m *model) inTx() bool { return m.txOpen || m.ac0 }
 
 func genCase(t *rapid.T) sh.Case {
-	return sh.Gen(t, sh.Profile{MinCmds: 12, MaxCmds: 30, KeepSession: 2, Disconnects: true, Ping: true, OddAutocommit: true})
+	return sh.Gen(t, sh.Profile{MinCmds: 12, MaxCmds: 30, KeepSession: 2, Disconnects: true, Ping: true, OddAutocommit: true, Streamed: true})
 }
 
 func genCaseThorough(t *rapid.T) sh.Case {
-	return sh.Gen(t, sh.Profile{MinCmds: 12, MaxCmds: 60, KeepSession: 2, Disconnects: true, Ping: true, OddAutocommit: true})
+	return sh.Gen(t, sh.Profile{MinCmds: 12, MaxCmds: 60, KeepSession: 2, Disconnects: true, Ping: true, OddAutocommit: true, Streamed: true})
 }
 
 func checkCase(c sh.Case) (o pbt.Outcome) {
@@ -58,6 +59,9 @@ func checkCase(c sh.Case) (o pbt.Outcome) {
 		c.Cmds[i].F = nil // C18 is about fault-free histories
 	}
 	tr := sh.Run(c, sh.Options{})
+	if os.Getenv("VERIF_TRACE") != "" {
+		fmt.Println(sh.Dump(tr))
+	}
 	if tr.SetupErr != "" {
 		o.Skip = "fixture: " + strings.SplitN(tr.SetupErr, ":", 2)[0]
 		return
@@ -189,6 +193,12 @@ func checkCase(c sh.Case) (o pbt.Outcome) {
 				if len(m.held) > 1 {
 					lab["multi_slice_tx"] = true
 				}
+				if st.Cmd.K == sh.KUBig {
+					lab["reply_over_16MiB_in_tx"] = true
+				}
+				if st.Cmd.K == sh.KUMulti {
+					lab["two_result_sets_in_tx"] = true
+				}
 				if st.Cmd.K == sh.KUForUpdate || st.Cmd.K == sh.KSForUpdate {
 					lab["for_update_in_tx"] = true
 				}
@@ -198,6 +208,8 @@ func checkCase(c sh.Case) (o pbt.Outcome) {
 				if m.ac0 && !m.txOpen {
 					lab["autocommit0_tx"] = true
 				}
+			} else if st.Cmd.K == sh.KUBig || st.Cmd.K == sh.KUMulti {
+				lab["streamed_reply_outside_tx"] = true
 			} else if c.RWSplit[s] && tagged[0].Role == "replica" {
 				lab["read_on_replica_outside_tx"] = true
 			}
@@ -370,7 +382,7 @@ func describe(ms []*model) string {
 	return strings.Join(parts, " ")
 }
 
-const rule = "histories of 12-30 (thorough 12-60) commands for 1-3 sessions over 1-3 slices (hash rule) with 0-2 replicas, pools of 1-3 (+3..4 dynamic), users with and without read/write splitting, keep-session on in a third of the cases: BEGIN / START TRANSACTION / COMMIT / ROLLBACK / SET autocommit / SAVEPOINT family / unsharded and sharded reads, writes and SELECT ... FOR UPDATE / USE / SET variable / COM_PING / disconnect; non-trivial = some transaction has two statements with another session's statement in between"
+const rule = "histories of 12-30 (thorough 12-60) commands for 1-3 sessions over 1-3 slices (hash rule) with 0-2 replicas, pools of 1-3 (+3..4 dynamic), users with and without read/write splitting, keep-session on in a third of the cases: BEGIN / START TRANSACTION / COMMIT / ROLLBACK / SET autocommit / SAVEPOINT family / unsharded and sharded reads, writes and SELECT ... FOR UPDATE / a few unsharded reads whose reply exceeds 16 MiB or carries two result sets (streamed by the proxy) / USE / SET variable / COM_PING / disconnect; non-trivial = some transaction has two statements with another session's statement in between"
 
 func TestC18History(t *testing.T) {
 	if _, err := proxyfix.Shared(); err != nil {
